@@ -200,6 +200,20 @@ def main():
             out["probe"] = "assert"
         except Exception as e:  # noqa: BLE001
             out["probe"] = "internal:" + type(e).__name__
+        # independence under a manual edit: grouping the missing values of ONE feature must not change the
+        # transform of the OTHER features (dropna=False objects: each feature keeps its own NaN flag)
+        try:
+            cand = [f for f in sorted(obj.features)
+                    if obj.str_nan in list(obj.values_orders[f]) and len(list(obj.values_orders[f])) >= 2]
+            if cand and len(obj.features) >= 2:
+                f0 = cand[0]
+                first = [k for k in obj.values_orders[f0] if k != obj.str_nan][0]
+                obj.update_discretizer(f0, "group", float("nan"), first)
+                Xe = obj.transform(build_frame(case, cfg["columns"]))
+                out["after_edit"] = {"edited": f0,
+                                     "labels": {f: encs(list(Xe[f])) for f in obj.features if f != f0}}
+        except Exception as e:  # noqa: BLE001  (edits that are refused belong to C17)
+            out["after_edit"] = {"error": f"{type(e).__name__}: {e}"[:200]}
     except AssertionError as e:
         out["fit"] = "assert"
         out["error"] = str(e)[:200]
